@@ -12,6 +12,7 @@
    with the first three fixes only; the *_refuted theorems of that section show on a configuration
    with exactly one of these fixes missing that the hypothesis is necessary. *)
 From PV Require Import Lib.Py Spec.RspSpec Model.Rsp Proofs.C35_frame Proofs.C35_lts Proofs.C35_live.
+From PV Require Import Model.RspRegs Proofs.C35_regs.
 Open Scope Z_scope.
 
 (* --- framing ----------------------------------------------------------------------------- *)
@@ -263,6 +264,35 @@ Theorem c35_retries_zero_unbounded_refuted : forall n,
 Proof. exact orig_retries_zero_unbounded. Qed.
 Print Assumptions c35_retries_zero_unbounded_refuted.
 
+(* --- register and memory payloads of the client (Model.RspRegs = client.py) ------------------- *)
+
+(* write_mem sends two hex digits per byte and read_mem decodes exactly that text back, for every
+   byte string (binascii.b2a_hex / a2b_hex as used by GdbClient.write_mem / read_mem) *)
+Theorem c35_mem_hex_roundtrip : forall data, Forall (fun b => 0 <= b < 256) data ->
+  read_mem_reply (write_mem_data data) = Ok data /\
+  length (write_mem_data data) = (2 * length data)%nat.
+Proof. exact mem_roundtrip. Qed.
+Print Assumptions c35_mem_hex_roundtrip.
+
+(* whatever set_registers sends ("G " + hex block), a little-endian target that answers 'g' with
+   that block makes _get_general_registers return the same values: for every register list
+   (any number of 8/16/32/64-bit registers) and all values *)
+Theorem c35_registers_roundtrip : forall regs vals cmd,
+  length vals = length regs -> set_registers_cmd regs vals = Ok cmd ->
+  firstn 2 cmd = [71; 32] /\ get_general_registers false regs (skipn 2 cmd) = Ok vals.
+Proof. exact registers_roundtrip. Qed.
+Print Assumptions c35_registers_roundtrip.
+
+(* the hypothesis of c35_registers_roundtrip is met by all values that fit their registers, and the
+   block has the size the registers add up to *)
+Theorem c35_set_registers_defined : forall regs vals,
+  length vals = length regs ->
+  Forall2 (fun bs v => std_size (bs / 8) = true /\ 0 <= v < 2 ^ (8 * (bs / 8))) regs vals ->
+  exists d, regs_block regs vals = Ok d /\
+            Z.of_nat (length d) = fold_right (fun bs a => bs / 8 + a) 0 regs.
+Proof. exact regs_block_defined. Qed.
+Print Assumptions c35_set_registers_defined.
+
 (* --- non-vacuity ----------------------------------------------------------------------------- *)
 Example c35_nonvacuous :
   feed_chunks fixed DIdle [[36; 97]; [125; 93; 98; 125]; []; [4; 35; 49]; [69]] =
@@ -284,3 +314,13 @@ Proof.
     + vm_compute. discriminate.
   - split; [repeat constructor; discriminate|]. vm_compute. repeat split.
 Qed.
+
+Example c35_regs_nonvacuous :
+  set_registers_cmd [32; 8; 16; 64] [305419896; 255; 513; 1] =
+    Ok [71; 32; 55; 56; 53; 54; 51; 52; 49; 50; 102; 102; 48; 49; 48; 50;
+        48; 49; 48; 48; 48; 48; 48; 48; 48; 48; 48; 48; 48; 48; 48; 48] /\
+  get_general_registers false [32; 8; 16; 64]
+    [55; 56; 53; 54; 51; 52; 49; 50; 70; 70; 48; 49; 48; 50;
+     48; 49; 48; 48; 48; 48; 48; 48; 48; 48; 48; 48; 48; 48; 48; 48] = Ok [305419896; 255; 513; 1] /\
+  read_mem_reply (write_mem_data [0; 127; 128; 255]) = Ok [0; 127; 128; 255].
+Proof. vm_compute. repeat split. Qed.
